@@ -575,6 +575,20 @@ def r06_14(ctx: Ctx):
     return foreign_history_writes(ctx, "R06.14", "a deme's history changes without the deme having run a metaepoch (also when it is inactive or asleep)")
 
 
+def r06_15(ctx: Ctx):
+    """R06.15 what a deme records is its own: no container defined in a deme class body (one object for all instances) is written
+    through `self` and recorded (R02.11) - otherwise a later deme's search extends the history of demes that have stopped."""
+    from . import c02
+
+    out = []
+    for o in c02.r02_11(ctx):
+        if o.status != OK and not any(k in (o.subject or "") for k in ("demes.", "Deme")):
+            continue
+        o.rule = "R06.15"
+        out.append(o)
+    return out
+
+
 def r06_12(ctx: Ctx):
     """R06.12 a deme evaluates only through its own counting wrapper: no population it evaluates or breeds from contains another
     deme's Individual object (R03.11) - otherwise the evaluations of a running child go through the wrapper of its parent, i.e.
@@ -631,4 +645,5 @@ RULES = [
     ("R06.12", r06_12, 3),
     ("R06.13", r06_13, 2),
     ("R06.14", r06_14, 1),
+    ("R06.15", r06_15, 1),
 ]
